@@ -112,14 +112,15 @@ func (a *analysis) mock(np NamePair) {
 		a.add("C02", "*%s is not assignable to %s", np.Mock, np.Iface)
 	}
 	// exactly one <M>Func field per method, nothing else ending in Func that is not a method companion
-	funcFields := 0
-	for i := 0; i < mstruct.NumFields(); i++ {
-		if strings.HasSuffix(mstruct.Field(i).Name(), "Func") {
-			funcFields++
-		}
+	companions := map[string]bool{}
+	for i := 0; i < iface.NumMethods(); i++ {
+		companions[iface.Method(i).Name()+"Func"] = true
 	}
-	if funcFields != iface.NumMethods() {
-		a.add("C02", "%s has %d ...Func fields for %d interface methods", np.Mock, funcFields, iface.NumMethods())
+	for i := 0; i < mstruct.NumFields(); i++ {
+		f := mstruct.Field(i)
+		if _, isFunc := f.Type().Underlying().(*types.Signature); isFunc && !companions[f.Name()] {
+			a.add("C02", "%s has a function field %s that is the companion of no interface method", np.Mock, f.Name())
+		}
 	}
 	a.f.Methods += iface.NumMethods()
 	// ---- C08 static: reset API
